@@ -31,12 +31,21 @@ struct RunRecord {
   std::vector<sim::FaultOp> faults;   // with fired flags
   std::vector<sim::SignalOp> signals; // with fired flags
   int exit_status() const { return exited ? exit_code : ret; }
+  // AMPLS-API sessions: per round, the return codes of the API calls and the .sol files on the simulated disk afterwards
+  struct Round { int rc_solve = 0, rc_report = 0; std::map<std::string, std::string> sol_files; int stub_objs = -1; };
+  std::vector<Round> rounds;
+  int rc_load = 0;
+  std::vector<std::string> api_messages;
 };
 
 // "@/" in argv / env / option strings is replaced by the scratch directory.
 std::string subst(const std::string& s);
 
 RunRecord run_driver(const sim::Json& scenario);
+// One solver instance driven through the AMPLS C API (src/solver.cc: AMPLS__internal__Open, AMPLSSet*Option, AMPLSLoadNLModel, then
+// rounds of AMPLSSolve + AMPLSReportResults to the standard or a named .sol file) instead of one RunBackendApp run.
+// scenario.session = {api_options:[[name,type,value]...], load_options:[...], rounds:[{script:{...}, solfile:"name.sol"|null}...]}
+RunRecord run_ampls_session(const sim::Json& scenario);
 
 // Fill the generic parts of a RunResult from a record (fingerprint, stats, sim time).
 void fill_result(const RunRecord& rec, sim::RunResult& r);
